@@ -1,6 +1,101 @@
 import PgFdr.Json
+import PgFdr.Model.C18
 namespace PgFdr.Driver
-open Lean PgFdr
+open Lean PgFdr PgFdr.C18 PgFdr.Generated
+
+namespace C18io
+
+def scoreTag : Score → String
+  | .multPEP => "multPEP" | .bestPEP => "bestPEP" | .andromeda => "Andromeda" | .mqProtein => "MQ_protein"
+
+def originTag : Origin → String
+  | .perc => "perc" | .percRemap => "perc_remap" | .fragpipe => "fragpipe" | .sage => "sage"
+  | .diann => "diann" | .mq => "mq" | .mqNoRemap => "mq_no_remap"
+
+def groupingTag : Grouping → String
+  | .no => "no" | .subset => "subset" | .rescuedSubset => "rescued_subset" | .mqNative => "mq_native"
+  | .rescuedMqNative => "rescued_mq_native" | .pseudoGene => "pseudo_gene"
+
+def pickedTag : Picked → String
+  | .picked => "picked" | .pickedGroup => "picked_group" | .classic => "classic"
+
+def inputTag : Input → String
+  | .mq => "mq" | .perc => "perc" | .fragpipe => "fragpipe" | .sage => "sage" | .diann => "diann"
+
+def ofCfg (c : Cfg) : Json :=
+  obj [("score", .str (scoreTag c.score)), ("origin", .str (originTag c.origin)),
+       ("razor", .bool c.razor), ("with_shared", .bool c.withShared),
+       ("grouping", .str (groupingTag c.grouping)), ("picked", .str (pickedTag c.picked)),
+       ("label", .str c.label), ("can_rescue", .bool c.score.canRescue),
+       ("rescues", .bool c.grouping.rescues), ("remaps", .bool c.origin.remaps),
+       ("can_quantify", .bool c.origin.canQuantify),
+       ("input", .str (inputTag c.input)),
+       ("score_column", match c.scoreColumn with | some s => .str s | none => .null),
+       ("needs_map", .bool c.needsMap)]
+
+def ofOutcome : Outcome → Json
+  | .table => .str "table"
+  | .skipped => .str "skipped"
+  | .abort e => obj [("abort", .str e.tag)]
+
+def ofError (e : Err) : Json :=
+  match e with
+  | .missingKey k => obj [("err", .str e.tag), ("key", .str k)]
+  | _ => obj [("err", .str e.tag)]
+
+def optStr (j : Json) (k : String) : R (Option String) :=
+  match jgetOpt j k with
+  | none => pure none
+  | some v => do pure (some (← jstr v))
+
+def bfield (j : Json) (k : String) : R Bool :=
+  match jgetOpt j k with
+  | none => pure false
+  | some v => jbool v
+
+/-- `{"name": n}` = built-in method looked up in `Generated.methods`;
+    `{"toml": {label?, scoreType?, grouping?, sharedPeptides?, pickedStrategy?}}` = a custom file -/
+def jmethod (j : Json) : R MethodRef :=
+  match jgetOpt j "toml" with
+  | some t => do
+    pure (.custom { name := "<custom>", label := ← optStr t "label", scoreType := ← optStr t "scoreType",
+                    grouping := ← optStr t "grouping", sharedPeptides := ← optStr t "sharedPeptides",
+                    pickedStrategy := ← optStr t "pickedStrategy" })
+  | none => do pure (.builtin (← jstr (← jget j "name")))
+
+def jsupplied (j : Json) : R Supplied := do
+  pure { mq := ← bfield j "mq", perc := ← bfield j "perc", fragpipe := ← bfield j "fragpipe",
+         sage := ← bfield j "sage", diann := ← bfield j "diann", map := ← bfield j "map",
+         mqGroups := ← bfield j "mq_groups" }
+
+end C18io
+open C18io
+
+/-- `{"op":"method","methods":[{"name":…}|{"toml":{…}}…],"use_genes":b,
+     "supplied":{"mq":b,"perc":b,"fragpipe":b,"sage":b,"diann":b,"map":b,"mq_groups":b},
+     "stem":s,"suffix":s}`
+    → `{"err":tag}` or `{"cfgs":[…],"outcomes":["table"|"skipped"|{"abort":tag}…],"files":[name…]}` -/
+def handleMethod (j : Json) : R Json := do
+  let ms ← jlist jmethod (← jget j "methods")
+  let useGenes ← bfield j "use_genes"
+  let sup ← match jgetOpt j "supplied" with
+    | some s => jsupplied s
+    | none => pure { mq := false, perc := false, fragpipe := false, sage := false, diann := false,
+                     map := false, mqGroups := false }
+  let stem := (jgetOpt j "stem").bind (fun v => (jstr v).toOption) |>.getD "out"
+  let suffix := (jgetOpt j "suffix").bind (fun v => (jstr v).toOption) |>.getD ".txt"
+  match runCli Generated.methods useGenes sup ms with
+  | .error e => pure (ofError e)
+  | .ok (cfgs, outs) =>
+    let several := decide (cfgs.length > 1)
+    pure (obj [("cfgs", ofList ofCfg cfgs), ("outcomes", ofList ofOutcome outs),
+               ("files", ofStrs (cfgs.map (outputName several stem suffix)))])
+
+/-- `{"op":"methods_table"}` → the names of `Generated.methods` with `usable` -/
+def handleTable (_ : Json) : R Json :=
+  pure (ofList (fun m => obj [("name", .str m.name), ("usable", .bool (usable m))]) Generated.methods)
+
 /-- protocol handlers of property C18: (op name, handler) -/
-def handlersC18 : List (String × (Json → R Json)) := []
+def handlersC18 : List (String × (Json → R Json)) :=
+  [("method", handleMethod), ("methods_table", handleTable)]
 end PgFdr.Driver
